@@ -37,7 +37,17 @@ fn list_text(toks: &[(&Tok, &str)]) -> String {
 
 fn parse_range(text: &str) -> Result<Option<Contents>, String> {
     let t = text.to_string();
-    catch(move || t.parse::<HandRange>().ok().map(|r| contents_of(&r)))
+    catch(move || {
+        t.parse::<HandRange>().ok().map(|r| {
+            // keys must be pairs in canonical form (C14); a non-canonical key is a different, unreachable combo
+            for cp in r.card_pairs().keys() {
+                if !(cp[0] < cp[1]) {
+                    panic!("the parsed range holds the non-canonical key ({:?},{:?})", cp[0], cp[1]);
+                }
+            }
+            contents_of(&r)
+        })
+    })
 }
 
 fn diff(expected: &Contents, got: &Contents) -> Value {
@@ -132,6 +142,33 @@ pub fn run(tier: &str) -> i32 {
                 });
             }
         }
+    }
+    // ... and with a verdict: the quantifier's 3,796 well-formed tokens are the 3,640 above plus these 156
+    // kicker-first spellings; 'KAs' denotes the same four combos as 'AKs'
+    {
+        let mut nrev = 0u64;
+        for h in 0..12u8 {
+            for k in (h + 1)..13u8 {
+                for (s, suited) in [('s', true), ('o', false)] {
+                    let rp = if suited { RP::Suited(h, k) } else { RP::Offsuit(h, k) };
+                    for suf in ["", ":0.5", ":0"] {
+                        nrev += 1;
+                        let text = format!("{}{}{}{}", RANK_CHARS[k as usize], RANK_CHARS[h as usize], s, suf);
+                        let mut exp = Contents::new();
+                        for cb in rp.combos() {
+                            exp.insert(cb, weight_of(suf));
+                        }
+                        if let Some(b) = check_range_text(&text, &exp) {
+                            rep.violation(Violation { key: format!("range={}", text), sub: "kicker-first-spellings".into(), case: json!({"text": text}), expected: json!("the same combos as the high-card-first spelling"), observed: b });
+                        }
+                        if let Some(b) = check_token_text(&text, &exp) {
+                            rep.violation(Violation { key: format!("token={}", text), sub: "kicker-first-spellings".into(), case: json!({"text": text, "as": "token"}), expected: json!("the same combos as the high-card-first spelling"), observed: b });
+                        }
+                    }
+                }
+            }
+        }
+        rep.sub("kicker-first-spellings", "the 156 single rank-pair tokens written kicker first ('KAs', '27o') x 3 weights, as token and as range: the same combos as the high-card-first spelling (3,640 + 156 = the 3,796 well-formed tokens of the quantifier)", nrev * 2, 156, true, json!({}));
     }
     let rev_ok = reversed.iter().filter(|x| **x > 0).count();
     rep.set("reversed_spellings_recorded_without_verdict", json!({"texts": reversed.len(), "parsed_to_a_non_empty_range": rev_ok, "note": "kicker-first spellings such as 'KAs' are not required by the statement; their behaviour is only recorded"}));
